@@ -31,7 +31,7 @@ ASSUMPTIONS = [
 ]
 RULE = ("cases: C11's programs (random scripts over acquire/release/sleep/wait with 1..3 locks in a fixed "
         "order, directed 'urgent task waits on a lock held by a queued waiter' shapes, chains), 2..6 "
-        "contenders, int/float/Priority-enum priorities with ties, plain and Python tasks mixed in, cancels; "
+        "contenders, int/float/Priority-enum priorities with ties, plain and Python tasks mixed in, cancels (also of a waiter that inherited while queued), crowded locks (9..25 waiters) in a chain; "
         "both loops.  Non-trivial = the run reached a hand-over with at least two queued waiters, or one "
         "decided by a priority inherited while queued, or a tie, or a hand-over caused by a waiter giving up.  "
         "distinct = hash of the canonical case")
@@ -52,7 +52,12 @@ def gen(rng, n):
     out = []
     for _ in range(n):
         g = rng.random()
-        if g < 0.40:
+        if g < 0.01:
+            # a crowded lock (9..12 or 17..25 waiters) in the middle of a chain
+            out.append(S.gen_chain_contended_case(rng, "C12", crowd=S.crowd_size(rng) - 1))
+        elif g < 0.04:
+            out.append(S.gen_inherited_giveup_case(rng))
+        elif g < 0.40:
             out.append(S.gen_case(rng, "C12"))
         elif g < 0.70:
             out.append(S.gen_inherit_case(rng, "C12"))
